@@ -449,10 +449,12 @@ Qed.
 (* every kind of case *)
 Theorem judge_sound : forall c, C19_guard c = true -> agrees c = true -> C19_ok c = true.
 Proof.
-  intros [initial o0 steps|initial now threads fin|initial steps mev aev].
+  intros [initial o0 steps|initial now threads fin|initial steps mev aev|opts panicked o0 steps evclk|l m w code ret l'].
   - apply judge_sound_seq.
   - apply judge_sound_conc.
   - apply judge_sound_stream.
+  - apply judge_sound_cfg.
+  - apply judge_sound_opt.
 Qed.
 
 Corollary judge_never_2 : forall c, judge c <> 2.
